@@ -93,8 +93,12 @@ func (f *fakeS3) GetObjectWithContext(ctx aws.Context, in *s3.GetObjectInput, _ 
 	f.gets++
 	fb := f.failBody
 	f.failBody = -1
-	cl := int64(len(b))
-	return &s3.GetObjectOutput{Body: &chunkReader{b: b, chunk: []int{1, 3, 7, 512, 1 << 20}[f.gets%5], failAt: fb}, ContentLength: &cl}, nil
+	out := &s3.GetObjectOutput{Body: &chunkReader{b: b, chunk: []int{1, 3, 7, 512, 1 << 20}[f.gets%5], failAt: fb}}
+	if f.gets%3 != 0 { // an answer need not carry a Content-Length (chunked transfer, hand-written clients)
+		cl := int64(len(b))
+		out.ContentLength = &cl
+	}
+	return out, nil
 }
 
 func (f *fakeS3) PutObjectWithContext(ctx aws.Context, in *s3.PutObjectInput, _ ...request.Option) (*s3.PutObjectOutput, error) {
@@ -113,12 +117,13 @@ func (f *fakeS3) PutObjectWithContext(ctx aws.Context, in *s3.PutObjectInput, _ 
 }
 
 type backendExec struct {
-	dir      string
-	backends map[string]mast.Persist
-	s3f      *fakeS3
-	written  map[string]map[string][]byte // per backend: what a successful Store wrote
-	failed   bool                         // the last op had an injected backend error
-	held     []heldBytes                  // what earlier Loads returned (the caller still holds it)
+	dir       string
+	backends  map[string]mast.Persist
+	s3f       *fakeS3
+	written   map[string]map[string][]byte // per backend: what a successful Store wrote
+	failed    bool                         // the last op had an injected backend error
+	plainBody bool                         // the last bloadbody met an empty object and was an ordinary load
+	held      []heldBytes                  // what earlier Loads returned (the caller still holds it)
 }
 
 // heldBytes: a byte slice an earlier Load returned, and a private copy of what it held then.
@@ -243,24 +248,26 @@ func (e *backendExec) Exec(line string) (obs, viol string) {
 		if t[0] == "bloadbody" {
 			// the GET succeeds, the body fails after a few bytes (a connection reset midway): unless
 			// the object is shorter than that, Load must return an error, never a prefix
-			want := e.written[t[1]][t[2]]
-			cut, _ := strconv.Atoi(t[3])
-			if len(want) == 0 {
-				cut = 0
-			} else {
-				cut = cut % len(want)
-			}
-			e.s3f.failBody = cut
-			e.failed = true
-			b, err := be.Load(ctx, t[2])
-			e.s3f.failBody = -1
-			if _, ok := e.written[t[1]][t[2]]; !ok {
+			want, written := e.written[t[1]][t[2]]
+			e.plainBody = written && len(want) == 0
+			if !e.plainBody {
+				cut, _ := strconv.Atoi(t[3])
+				if len(want) > 0 {
+					cut = cut % len(want)
+				}
+				e.s3f.failBody = cut
+				e.failed = true
+				b, err := be.Load(ctx, t[2])
+				e.s3f.failBody = -1
+				if !written {
+					return "err", ""
+				}
+				if err == nil {
+					return "ok", fmt.Sprintf("the S3 body failed after %d of %d bytes, Load returned %d bytes and no error", cut, len(want), len(b))
+				}
 				return "err", ""
 			}
-			if err == nil {
-				return "ok", fmt.Sprintf("the S3 body failed after %d of %d bytes, Load returned %d bytes and no error", cut, len(want), len(b))
-			}
-			return "err", ""
+			// (an empty object has no "midway": an ordinary load)
 		}
 		ncalls := len(e.s3f.calls)
 		b, err := be.Load(ctx, t[2])
@@ -313,7 +320,12 @@ func (e *backendExec) ModelLine(line string) string {
 			return "kverr"
 		}
 		return "kvstore " + t[1] + " " + t[2] + " " + t[3]
-	case "bstorefail", "bloadfail", "bloadbody":
+	case "bloadbody":
+		if e.plainBody {
+			return "kvload " + t[1] + " " + t[2]
+		}
+		return "kverr"
+	case "bstorefail", "bloadfail":
 		return "kverr"
 	case "bload":
 		return "kvload " + t[1] + " " + t[2]
